@@ -25,7 +25,7 @@ CLAIMED = {
    note="Trusts the ledger and UTC day/ISO-week arithmetic of the Python standard library; a resource-qualified task limit is judged per listed resource (TaskJuggler semantics).",
    technique="property-based testing (Hypothesis) with an aggregation oracle over the usage ledger"),
  "C10": dict(
-   text="Generated task trees up to six levels deep with schedulable and unschedulable leaves (never-working resource, cycles, group allocations, unresolved references), dated containers, containers carrying work attributes and resource groups; the container flags and dates are recomputed bottom-up from the reported leaf values and the ledger is scanned for container tasks and group resources.",
+   text="Generated task trees up to six levels deep with schedulable and unschedulable leaves (never-working resource, cycles, group allocations, unresolved references), dated containers, containers carrying work attributes and resource groups; the container flags and dates are recomputed bottom-up from the reported leaf values (in every scenario of multi-scenario projects) and the ledger is scanned for container tasks and group resources.",
    note="Leaf values are taken as reported (their correctness is the business of C03/C06/C07); trusts the renderer.",
    technique="property-based testing (Hypothesis) with a bottom-up roll-up oracle"),
  "C07": dict(
@@ -34,12 +34,12 @@ CLAIMED = {
    technique="differential property-based testing + exhaustive bounded enumeration against an independent reference scheduler"),
  "C08": dict(
    text="Generated projects (sub-slot efforts, contention, leaves, zones, cross-midnight shifts; forward tasks, project-level and anchored task-level ALAP) are scheduled by the real code; for every judged task the slots between its dependency bound and its end (mirror: between its end and its deadline) are scanned in the final ledger for a slot that is working for all of its resources by the independent calendar, entirely unbooked and unused by the task.",
-   note="Sound because bookings are never withdrawn; slot granularity as stated; limited tasks, alternatives and ALAP-propagated tasks are generated but not judged; dependency bounds use the observed predecessor dates.",
+   note="Sound because bookings are never withdrawn; slot granularity as stated; limited tasks and alternatives are generated but not judged; tasks that become backward by the documented ALAP propagation are judged when they lie on a leaf-to-leaf chain from an anchor, otherwise skipped; two sub-slot effects of the position-less slot ledger are recorded findings (F02, F04); dependency bounds use the observed predecessor dates.",
    technique="property-based testing (Hypothesis) with a universally quantified validity predicate over free slots, against an independent calendar"),
  "C09": dict(
    text="Metamorphic pairs (base project vs. base project plus one lowest-priority task nothing depends on, inserted at any position/nesting, on any resource or team, pinned / dependent / anchored ALAP) are both scheduled by the real code; dates, flags and per-task bookings of all base tasks must be identical. Pairs whose effective horizon differs are discarded and counted.",
    note="The relation needs no model of the scheduler; trusts the renderer and that the only legitimate channel is the horizon extension (discard rule). ALAP intruders and intruders in backward projects carry no own or inherited dependencies.",
-   technique="metamorphic property-based testing (Hypothesis): add-a-lowest-priority-task relation"),
+   technique="metamorphic property-based testing (Hypothesis): add-a-lowest-priority-task relation, plus a generated contest of independent tasks on one resource for the served-first clause"),
  "C14": dict(
    text="Metamorphic pairs: a generated UTC project and the same project with every date moved by k weeks (k from 1 week to 6 years), project starts concentrated around year ends, leap days and 53-week ISO years; both are scheduled by the real code and every reported date of the shifted run minus k weeks must equal the original run.",
    note="No model of the scheduler is needed; trusts the date-shifting of the model (all dates are kept in the model, none in free text). Resource time zones and month/year durations are outside the relation.",
